@@ -87,6 +87,9 @@ func execCase(t *testing.T, rc *RunCase, rngForGen func() chooser, keep bool, de
 			if o.Case.Debug {
 				rr.Stats["probe_debug_on"]++
 			}
+			if o.Case.EOFAfterUS > 0 {
+				rr.Stats["fault_input_closed_during_timed_search"]++
+			}
 			switch {
 			case o.Case.MoveTime > 0:
 				rr.Stats["probe_movetime"]++
